@@ -231,6 +231,7 @@ func (m *MonC02) History(b []byte) []byte {
 // starting from the persisted baseline, and that a restart continues from disk.
 type MonC07 struct {
 	last      []*pb.HardState // last exposed (or baseline) per node
+	known     []*pb.HardState // what the application knows of each node's hard state: the state at start, then every exposed one
 	startTerm []uint64
 	shared    bool
 }
@@ -240,6 +241,11 @@ func (m *MonC07) Prop() string { return "C07" }
 func (m *MonC07) Init(w *World) {
 	m.last = make([]*pb.HardState, len(w.Nodes))
 	m.startTerm = make([]uint64, len(w.Nodes))
+	m.known = make([]*pb.HardState, len(w.Nodes))
+	for i, n := range w.Nodes {
+		vs := n.vs()
+		m.known[i] = &pb.HardState{Term: new(vs.Term), Vote: new(vs.Vote), Commit: new(vs.Committed)}
+	}
 	for i := range w.Nodes {
 		m.last[i] = cloneHS(w.DiskHS(i))
 		if m.last[i] == nil {
@@ -271,6 +277,24 @@ func (m *MonC07) OnEvent(w *World, rec *StepRec) []*Violation {
 		}
 		m.own()
 		m.last[i] = cloneHS(hs)
+	}
+	// every change of term, vote or commit index is exposed by the next Ready (a change that is
+	// never exposed is never persisted)
+	if rd := rec.Ready; rd != nil && rec.Pre != nil {
+		k := m.known[i]
+		if pre := rec.Pre; pre.Term != k.GetTerm() || pre.Vote != k.GetVote() || pre.Committed != k.GetCommit() {
+			if rd.HardState == nil || rd.HardState.GetTerm() != pre.Term || rd.HardState.GetVote() != pre.Vote || rd.HardState.GetCommit() != pre.Committed {
+				got := "none"
+				if rd.HardState != nil {
+					got = hsStr(rd.HardState)
+				}
+				out = append(out, &Violation{"C07", "hard-state-change-exposed", fmt.Sprintf("node %d is at {t%d v%d c%d}, the application last saw %s, but the Ready exposes %s", n.ID, pre.Term, pre.Vote, pre.Committed, hsStr(k), got)})
+			}
+		}
+		if rd.HardState != nil && (rd.HardState.GetTerm() != 0 || rd.HardState.GetVote() != 0 || rd.HardState.GetCommit() != 0) {
+			m.own()
+			m.known[i] = cloneHS(rd.HardState)
+		}
 	}
 	// async storage writes: the hard state a Ready exposes is what its MsgStorageAppend tells the
 	// append thread to persist (otherwise it is exposed but never becomes durable)
@@ -307,6 +331,7 @@ func (m *MonC07) OnEvent(w *World, rec *StepRec) []*Violation {
 		m.own()
 		m.last[i] = cloneHS(d)
 		m.startTerm[i] = d.GetTerm()
+		m.known[i] = &pb.HardState{Term: new(vs.Term), Vote: new(vs.Vote), Commit: new(vs.Committed)}
 	}
 	return out
 }
@@ -319,7 +344,7 @@ func (m *MonC07) Clone() Monitor {
 
 func (m *MonC07) own() {
 	if m.shared {
-		m.last, m.startTerm, m.shared = append([]*pb.HardState(nil), m.last...), append([]uint64(nil), m.startTerm...), false
+		m.last, m.startTerm, m.known, m.shared = append([]*pb.HardState(nil), m.last...), append([]uint64(nil), m.startTerm...), append([]*pb.HardState(nil), m.known...), false
 	}
 }
 
@@ -329,6 +354,9 @@ func (m *MonC07) History(b []byte) []byte {
 		b = binary.AppendUvarint(b, m.last[i].GetVote())
 		b = binary.AppendUvarint(b, m.last[i].GetCommit())
 		b = binary.AppendUvarint(b, m.startTerm[i])
+		b = binary.AppendUvarint(b, m.known[i].GetTerm())
+		b = binary.AppendUvarint(b, m.known[i].GetVote())
+		b = binary.AppendUvarint(b, m.known[i].GetCommit())
 	}
 	return b
 }
